@@ -23,6 +23,9 @@ import (
 	"crypto/sha256"
 	"encoding/hex"
 	"fmt"
+	"go/ast"
+	goparser "go/parser"
+	"go/token"
 	"os"
 	"os/exec"
 	"path/filepath"
@@ -35,40 +38,89 @@ import (
 	"time"
 
 	"github.com/Workiva/frugal/compiler"
+	"github.com/Workiva/frugal/compiler/generator"
 )
 
 // ---------------------------------------------------------------- targets / options
 
-type c19Cfg struct {
-	gen string // value of -gen
+// Base configurations (compiled for the big, many-entries programs): every target with a few
+// option subsets.  java generated_annotations modes that embed a date (anything but absent /
+// "suppress" / "undated") are excluded, as the property says.
+var c19BaseGens = []string{
+	"go",
+	"go:package_prefix=example.com/gen/,async",
+	"go:slim,suppress_deprecated_logging,use_vendor",
+	"go:thrift_import=example.com/thrift,frugal_import=example.com/frugal,omit_server_service_generation",
+	"java",
+	"java:async,boxed_primitives",
+	"java:generated_annotations=undated,default_unsupported,use_vendor",
+	"java:generated_annotations=suppress,suppress_deprecated_logging",
+	"dart",
+	"dart:library_prefix=my_lib.src.gen",
+	"dart:use_enums,use_int64",
+	"dart:use_null_for_unset,use_vendor,nullsafe",
+	"py",
+	"py:package_prefix=pfx.gen.",
+	"py:asyncio",
+	"py:asyncio,package_prefix=apfx.",
+	"py:tornado",
+	"py:tornado,package_prefix=tpfx.",
+	"json",
+	"json:indent",
+	"html",
+	"html:standalone",
 }
 
-// Every target with a few option subsets.  java generated_annotations modes that
-// embed a date (anything but absent / "suppress" / "undated") are excluded, as
-// the property says.
-var c19Cfgs = []c19Cfg{
-	{"go"},
-	{"go:package_prefix=example.com/gen/,async"},
-	{"go:slim,suppress_deprecated_logging,use_vendor"},
-	{"go:thrift_import=example.com/thrift,frugal_import=example.com/frugal,omit_server_service_generation"},
-	{"java"},
-	{"java:async,boxed_primitives"},
-	{"java:generated_annotations=undated,default_unsupported,use_vendor"},
-	{"java:generated_annotations=suppress,suppress_deprecated_logging"},
-	{"dart"},
-	{"dart:library_prefix=my_lib.src.gen"},
-	{"dart:use_enums,use_int64"},
-	{"dart:use_null_for_unset,use_vendor,nullsafe"},
-	{"py"},
-	{"py:package_prefix=pfx.gen."},
-	{"py:asyncio"},
-	{"py:asyncio,package_prefix=apfx."},
-	{"py:tornado"},
-	{"py:tornado,package_prefix=tpfx."},
-	{"json"},
-	{"json:indent"},
-	{"html"},
-	{"html:standalone"},
+// values for the options that take one; an option not listed here is passed as a bare flag
+var c19OptValues = map[string][]string{
+	"go/thrift_import":          {"example.com/thrift"},
+	"go/frugal_import":          {"example.com/frugal"},
+	"go/package_prefix":         {"example.com/gen/"},
+	"py/package_prefix":         {"pfx.gen."},
+	"dart/library_prefix":       {"my_lib.src.gen"},
+	"java/generated_annotations": {"undated", "suppress"}, // "use" (and any other value) embeds the date: excluded by the property
+}
+
+// c19SweepGens: for every target of the REAL option table (generator.Languages — a new
+// option is drawn without touching this file) the empty option set, every option alone and
+// every pair of options.
+func c19SweepGens() []string {
+	var gens []string
+	langs := make([]string, 0, len(generator.Languages))
+	for l := range generator.Languages {
+		langs = append(langs, l)
+	}
+	sort.Strings(langs)
+	for _, lang := range langs {
+		type ov struct{ opt, text string }
+		var items []ov
+		names := make([]string, 0, len(generator.Languages[lang]))
+		for o := range generator.Languages[lang] {
+			names = append(names, o)
+		}
+		sort.Strings(names)
+		for _, o := range names {
+			if vals, ok := c19OptValues[lang+"/"+o]; ok {
+				for _, v := range vals {
+					items = append(items, ov{o, o + "=" + v})
+				}
+			} else {
+				items = append(items, ov{o, o})
+			}
+		}
+		gens = append(gens, lang)
+		for _, a := range items {
+			gens = append(gens, lang+":"+a.text)
+		}
+		for i, a := range items {
+			for _, b := range items[i+1:] {
+				if a.opt != b.opt {
+					gens = append(gens, lang+":"+a.text+","+b.text)
+				}
+			}
+		}
+	}
+	return gens
 }
 
 func c19Lang(gen string) (lang, opts string) {
@@ -90,6 +142,7 @@ type c19Item struct {
 }
 
 type c19Prog struct {
+	small bool // a 4-5 file program (option sweep) instead of the many-entries one
 	seed  uint64
 	paths []string // relative path of file i; 0 is the root
 	items []c19Item
@@ -347,6 +400,9 @@ func (g *c19Gen) genFile(i int, incs []int, vendored map[int]bool, big bool) {
 	// forward references inside the file are possible
 	nEnum, nStruct, nUnion, nExc := cnt(1, 3), cnt(2, 5), cnt(0, 2), cnt(1, 2)
 	nTypedef, nConst, nSvc, nScope := cnt(1, 3), cnt(1, 4), cnt(1, 3), cnt(0, 3)
+	if i == 0 && nScope == 0 {
+		nScope = 1
+	}
 	var decls []c19Item
 	me.enumVals = map[string][]string{}
 	me.enumNums = map[string][]int{}
@@ -566,10 +622,22 @@ var c19Dirs = []string{"", "", "sub1", "sub1/deep", "sub2", "lib/x", "lib/x/y", 
 
 // c19Generate builds the program of a seed.  No two files have the same base
 // name (known finding html-same-basename-modules is outside the generated class).
-func c19Generate(seed uint64) *c19Prog {
+func (p *c19Prog) seedToken() string {
+	if p.small {
+		return "t" + strconv.FormatUint(p.seed, 10)
+	}
+	return "s" + strconv.FormatUint(p.seed, 10)
+}
+
+func c19Generate(seed uint64) *c19Prog { return c19GenerateSized(seed, false) }
+
+func c19GenerateSized(seed uint64, small bool) *c19Prog {
 	r := NewRng(seed)
-	g := &c19Gen{r: r, p: &c19Prog{seed: seed}}
+	g := &c19Gen{r: r, p: &c19Prog{seed: seed, small: small}}
 	n := 14 + r.Intn(6)
+	if small {
+		n = 4 + r.Intn(2)
+	}
 	for i := 0; i < n; i++ {
 		name := fmt.Sprintf("f%02d%s", i, c19Word(r, 1))
 		if i == 0 {
@@ -588,7 +656,10 @@ func c19Generate(seed uint64) *c19Prog {
 	}
 	// include DAG: file i includes only files j > i; the root includes >= 12 files
 	incs := make([][]int, n)
-	nRoot := 12 + r.Intn(n-12)
+	nRoot := n - 1
+	if !small {
+		nRoot = 12 + r.Intn(n-12)
+	}
 	if nRoot > n-1 {
 		nRoot = n - 1
 	}
@@ -620,13 +691,13 @@ func c19Generate(seed uint64) *c19Prog {
 	}
 	vendored := map[int]bool{}
 	for _, j := range incs[0] {
-		if r.Chance(15) {
+		if r.Chance(15) || (small && j == incs[0][0]) {
 			vendored[j] = true
 		}
 	}
 	big2 := 1 + r.Intn(n-1)
 	for i := n - 1; i >= 0; i-- {
-		g.genFile(i, incs[i], vendored, i == 0 || i == big2)
+		g.genFile(i, incs[i], vendored, !small && (i == 0 || i == big2))
 	}
 	// items were appended from the last file to the first: order by file, stable
 	sort.SliceStable(g.p.items, func(a, b int) bool { return g.p.items[a].file < g.p.items[b].file })
@@ -786,9 +857,21 @@ type c19Layout struct {
 	desc    string
 }
 
-// c19Layouts prepares source copies, working directories and output locations
-// under base for R repetitions of one task.
+// c19Layouts prepares source copies, working directories and output locations under base
+// for R repetitions of one task.  Every repetition has a FRESH -out directory (goimports
+// consults sibling files).  Besides neutral places the working directories include
+// adversarial environments: inside a scratch Go module that declares look-alike packages
+// (c19Adversarial fills it after the first run), the -out directory itself, a GOPATH-like
+// tree with a vendor directory, a directory inside the frugal repository.
 func c19Layouts(base string, rootRel string, files map[string]string, R int, tag string) ([]c19Layout, error) {
+	kinds := make([]int, R)
+	for i := range kinds {
+		kinds[i] = i % 8
+	}
+	return c19LayoutsKinds(base, rootRel, files, kinds, tag)
+}
+
+func c19LayoutsKinds(base string, rootRel string, files map[string]string, kinds []int, tag string) ([]c19Layout, error) {
 	srcA := filepath.Join(base, "srcA", "p")
 	srcB := filepath.Join(base, "elsewhere", "much", "deeper", "copy of sources")
 	srcC := filepath.Join(base, "c")
@@ -799,44 +882,64 @@ func c19Layouts(base string, rootRel string, files map[string]string, R int, tag
 			}
 		}
 	}
+	advMod := filepath.Join(base, "adv", "project")
+	gopath := filepath.Join(base, "gopath")
+	os.MkdirAll(filepath.Join(advMod, "cmd", "tool"), 0o755)
+	os.WriteFile(filepath.Join(advMod, "go.mod"), []byte("module example.com/project\n\ngo 1.20\n"), 0o644)
+	os.WriteFile(filepath.Join(advMod, "cmd", "tool", "main.go"), []byte("package main\n\nfunc main() {}\n"), 0o644)
+	os.MkdirAll(filepath.Join(gopath, "src", "example.com", "proj"), 0o755)
 	var ls []c19Layout
-	for r := 0; r < R; r++ {
+	for r, kind := range kinds {
 		var l c19Layout
-		switch r % 6 {
-		case 0: // baseline: absolute everything, neutral cwd
+		fresh := filepath.Join(base, "o", tag, fmt.Sprintf("r%d", r))
+		switch kind {
+		case 0: // baseline: absolute everything, a cwd without any go.mod above it
 			l.src, l.cwd = srcA, filepath.Join(base, "wd0")
 			l.fileArg = filepath.Join(l.src, rootRel)
-			l.outAbs = filepath.Join(base, "o", tag, fmt.Sprintf("r%d", r), "gen")
+			l.outAbs = filepath.Join(fresh, "gen")
 			l.outArg = l.outAbs
-		case 1: // cwd = directory of the root file, relative file and relative -out
+		case 1: // ADVERSARIAL: cwd inside a Go module with packages named like everything generated Go imports;
+			// other absolute location of the sources, relative file argument with ..
+			l.src, l.cwd = srcB, filepath.Join(advMod, "cmd", "tool")
+			l.fileArg, _ = filepath.Rel(l.cwd, filepath.Join(l.src, rootRel))
+			l.outAbs = filepath.Join(fresh, "other out")
+			l.outArg = l.outAbs
+		case 2: // cwd = the -out directory itself
+			l.src = srcA
+			l.outAbs = filepath.Join(fresh, "here")
+			l.cwd = l.outAbs
+			l.fileArg = filepath.Join(l.src, rootRel)
+			l.outArg = "."
+		case 3: // sources copy B, cwd = source root, relative file, -out relative
+			l.src, l.cwd = srcB, srcB
+			l.fileArg = rootRel
+			l.outAbs = filepath.Join(fresh, "gen-inside")
+			l.outArg, _ = filepath.Rel(l.cwd, l.outAbs)
+		case 4: // cwd inside a GOPATH-like tree (src/<look-alike packages>, vendor/), -out a bare name below it
+			l.src = srcC
+			l.cwd = filepath.Join(gopath, "src", "example.com", "proj")
+			l.fileArg = filepath.Join(l.src, rootRel)
+			l.outArg = fmt.Sprintf("g%d", r)
+			l.outAbs = filepath.Join(l.cwd, l.outArg)
+		case 5: // cwd inside the frugal repository (the module the golden tests run in)
+			l.src = srcA
+			l.cwd = filepath.Join(c19RepoDir(), "compiler", "generator")
+			l.fileArg = filepath.Join(l.src, rootRel)
+			l.outAbs = filepath.Join(fresh, "from-repo")
+			l.outArg = l.outAbs
+		case 6: // the output directory lies inside a Go module; cwd = directory of the root file
 			l.src = srcA
 			l.cwd = filepath.Dir(filepath.Join(srcA, rootRel))
 			l.fileArg = filepath.Base(rootRel)
-			l.outAbs = filepath.Join(base, "o", tag, fmt.Sprintf("r%d", r), "x", "y")
-			l.outArg, _ = filepath.Rel(l.cwd, l.outAbs)
-		case 2: // other absolute location of the sources, other cwd, relative path with ..
-			l.src, l.cwd = srcB, filepath.Join(base, "wd1", "inner")
-			l.fileArg, _ = filepath.Rel(l.cwd, filepath.Join(l.src, rootRel))
-			l.outAbs = filepath.Join(base, "o", tag, fmt.Sprintf("r%d-other out", r))
-			l.outArg = l.outAbs
-		case 3: // sources copy B, cwd = source root, -out relative inside cwd
-			l.src, l.cwd = srcB, srcB
-			l.fileArg = rootRel
-			l.outAbs = filepath.Join(base, "o", tag, fmt.Sprintf("r%d", r), "gen-inside")
-			l.outArg, _ = filepath.Rel(l.cwd, l.outAbs)
-		case 4: // short location, cwd = output parent, -out a bare name
-			l.src = srcC
-			l.cwd = filepath.Join(base, "o", tag, fmt.Sprintf("r%d", r))
-			l.fileArg = filepath.Join(l.src, rootRel)
-			l.outArg = "g"
-			l.outAbs = filepath.Join(l.cwd, "g")
-		default: // the output directory lies inside a Go module (goimports looks around the output file)
-			l.src, l.cwd = srcA, filepath.Join(base, "wd0")
-			l.fileArg = filepath.Join(l.src, rootRel)
-			mod := filepath.Join(base, "o", tag, fmt.Sprintf("r%d", r), "mod")
+			mod := filepath.Join(fresh, "mod")
 			os.MkdirAll(mod, 0o755)
 			os.WriteFile(filepath.Join(mod, "go.mod"), []byte("module example.com\n\ngo 1.20\n"), 0o644)
 			l.outAbs = filepath.Join(mod, "gen")
+			l.outArg, _ = filepath.Rel(l.cwd, l.outAbs)
+		default: // adversarial module ROOT as cwd, -out below a sibling directory of the module
+			l.src, l.cwd = srcC, advMod
+			l.fileArg = filepath.Join(l.src, rootRel)
+			l.outAbs = filepath.Join(fresh, "x", "y")
 			l.outArg = l.outAbs
 		}
 		l.desc = fmt.Sprintf("rep=%d cwd=%s file=%s out=%s", r, strings.TrimPrefix(l.cwd, base), strings.TrimPrefix(l.fileArg, base), strings.TrimPrefix(l.outArg, base))
@@ -849,6 +952,140 @@ func c19Layouts(base string, rootRel string, files map[string]string, R int, tag
 		ls = append(ls, l)
 	}
 	return ls, nil
+}
+
+func c19RepoDir() string {
+	if p := os.Getenv("VERIF_REPO"); p != "" {
+		return p
+	}
+	return "/repo"
+}
+
+// names generated Go may refer to without the harness having seen them in a first run
+var c19AdvStatic = map[string][]string{
+	"logrus": {"DebugLevel", "Warn", "Warnf", "Warning", "Warningf", "Debug", "Info", "Error", "Fields", "WithFields"},
+	"thrift": {"ZERO", "PrependError", "TProtocol", "TStruct", "STRUCT", "STOP", "TException"},
+	"frugal": {"FContext", "NewFContext", "FProtocol", "FScopeProvider", "Method", "ServiceMiddleware"},
+	"golang": {"X"}, "context": {"Context", "Background"}, "fmt": {"Printf", "Sprintf", "Errorf", "Sprint"},
+	"bytes": {"Equal", "Buffer"}, "errors": {"New"}, "sync": {"Mutex", "RWMutex"}, "time": {"Duration", "Now"},
+	"log": {"Println", "Printf"}, "driver": {"Value"}, "strings": {"Join"}, "sort": {"Strings"}, "strconv": {"Itoa"},
+	"math": {"MaxInt32"}, "reflect": {"DeepEqual"}, "json": {"Marshal"}, "io": {"EOF"},
+}
+
+// c19DerivePkgs reads the Go files a first run emitted: for every package name an import
+// provides (alias or last path element) the exported selectors used on it, and for every
+// generated package its name with its exported top-level names.
+func c19DerivePkgs(out string) map[string]map[string]bool {
+	pkgs := map[string]map[string]bool{}
+	put := func(p, sym string) {
+		if p == "" || p == "_" || p == "." {
+			return
+		}
+		if pkgs[p] == nil {
+			pkgs[p] = map[string]bool{}
+		}
+		if sym != "" && ast.IsExported(sym) {
+			pkgs[p][sym] = true
+		}
+	}
+	filepath.Walk(out, func(path string, info os.FileInfo, err error) error {
+		if err != nil || info.IsDir() || !strings.HasSuffix(path, ".go") {
+			return nil
+		}
+		f, err := goparser.ParseFile(token.NewFileSet(), path, nil, 0)
+		if err != nil {
+			return nil
+		}
+		names := map[string]bool{}
+		for _, im := range f.Imports {
+			pth, _ := strconv.Unquote(im.Path.Value)
+			n := pth
+			if i := strings.LastIndexByte(pth, '/'); i >= 0 {
+				n = pth[i+1:]
+			}
+			if im.Name != nil {
+				n = im.Name.Name
+			}
+			names[n] = true
+			put(n, "")
+		}
+		ast.Inspect(f, func(nd ast.Node) bool {
+			if se, ok := nd.(*ast.SelectorExpr); ok {
+				// an imported name, or a name nothing in the file declares (a package whose import
+				// goimports dropped or could not add, or a sibling file's variable: harmless extra)
+				if id, ok := se.X.(*ast.Ident); ok && (names[id.Name] || id.Obj == nil) {
+					put(id.Name, se.Sel.Name)
+				}
+			}
+			return true
+		})
+		for _, d := range f.Decls {
+			switch x := d.(type) {
+			case *ast.FuncDecl:
+				if x.Recv == nil {
+					put(f.Name.Name, x.Name.Name)
+				}
+			case *ast.GenDecl:
+				for _, sp := range x.Specs {
+					switch y := sp.(type) {
+					case *ast.TypeSpec:
+						put(f.Name.Name, y.Name.Name)
+					case *ast.ValueSpec:
+						for _, n := range y.Names {
+							put(f.Name.Name, n.Name)
+						}
+					}
+				}
+			}
+		}
+		return nil
+	})
+	return pkgs
+}
+
+// c19Adversarial declares, inside the scratch module and the GOPATH-like tree, a package for
+// every name in pkgs (plus the static list) that exports every symbol generated code uses.
+func c19Adversarial(base string, pkgs map[string]map[string]bool) {
+	all := map[string]map[string]bool{}
+	for p, syms := range c19AdvStatic {
+		all[p] = map[string]bool{}
+		for _, s := range syms {
+			all[p][s] = true
+		}
+	}
+	for p, syms := range pkgs {
+		if all[p] == nil {
+			all[p] = map[string]bool{}
+		}
+		for s := range syms {
+			all[p][s] = true
+		}
+	}
+	roots := []string{
+		filepath.Join(base, "adv", "project"),
+		filepath.Join(base, "gopath", "src"),
+		filepath.Join(base, "gopath", "src", "example.com", "proj", "vendor"),
+		filepath.Join(base, "gopath", "src", "example.com", "proj", "vendor", "github.com", "sirupsen"),
+	}
+	for p, syms := range all {
+		if !token.IsIdentifier(p) || p == "main" {
+			continue
+		}
+		names := make([]string, 0, len(syms))
+		for s := range syms {
+			names = append(names, s)
+		}
+		sort.Strings(names)
+		src := "// look-alike package of the C19 determinism harness\npackage " + p + "\n\n"
+		for _, s := range names {
+			src += "var " + s + " int\n"
+		}
+		for _, root := range roots {
+			d := filepath.Join(root, p)
+			os.MkdirAll(d, 0o755)
+			os.WriteFile(filepath.Join(d, p+".go"), []byte(src), 0o644)
+		}
+	}
 }
 
 func c19Exec(l c19Layout, gen string) c19Run {
@@ -1004,13 +1241,13 @@ var c19ParallelRuns = false
 // c19Shrink removes items (scopes, services, constants, …, includes) one at a time while
 // the same failure persists, within a time budget; cheap because a removal that breaks a
 // reference just fails to compile.
-func c19Shrink(p *c19Prog, keep []bool, cfg int, what string, budget time.Duration) []bool {
+func c19Shrink(p *c19Prog, keep []bool, gen string, what string, budget time.Duration) []bool {
 	deadline := time.Now().Add(budget)
 	cur := append([]bool{}, keep...)
 	c19ParallelRuns = true
 	defer func() { c19ParallelRuns = false }()
 	fails := func(k []bool) bool {
-		r := c19Task(p, k, cfg, 8, false)
+		r := c19Task(p, k, gen, 8, false)
 		return !r.ok && r.invalid == "" && r.what == what
 	}
 	kinds := []string{"scope", "service", "const", "union", "exception", "struct", "enum", "typedef", "inc", "ns"}
@@ -1093,10 +1330,17 @@ func c19ParseKeep(s string, n int) []bool {
 
 // c19Task compiles one (program, keep, cfg) R times under varying layouts and
 // evaluates the property.  inproc adds in-process repetitions.
-func c19Task(p *c19Prog, keep []bool, cfg int, R int, inproc bool) c19Result {
+func c19Task(p *c19Prog, keep []bool, gen string, R int, inproc bool) c19Result {
 	files, _ := p.render(keep)
-	return c19TaskFiles(p, files, cfg, R, inproc, fmt.Sprintf("c19det s%d %d %d %s", p.seed, cfg, R, c19KeepString(keep)))
+	return c19TaskFiles(p, files, gen, R, inproc, fmt.Sprintf("c19det %s %s %d %s", p.seedToken(), gen, R, c19KeepString(keep)))
 }
+
+// c19TaskKinds: as c19Task with an explicit choice of layouts (the replay line asks for all 8).
+func c19TaskKinds(p *c19Prog, keep []bool, gen string, kinds []int, inproc bool) c19Result {
+	files, _ := p.render(keep)
+	return c19TaskFiles(p, files, gen, -1, inproc, fmt.Sprintf("c19det %s %s %d %s", p.seedToken(), gen, 8, c19KeepString(keep)), kinds...)
+}
+
 
 func c19ReadTree(dir string) map[string]string {
 	files := map[string]string{}
@@ -1113,24 +1357,38 @@ func c19ReadTree(dir string) map[string]string {
 	return files
 }
 
-func c19TaskFiles(p *c19Prog, files map[string]string, cfg int, R int, inproc bool, line string) c19Result {
+func c19TaskFiles(p *c19Prog, files map[string]string, gen string, R int, inproc bool, line string, kinds ...int) c19Result {
 	res := c19Result{detail: map[string]interface{}{}}
-	gen := c19Cfgs[cfg].gen
 	base, err := os.MkdirTemp("", "verif-c19-")
 	if err != nil {
 		res.invalid = "mkdtemp: " + err.Error()
 		return res
 	}
 	defer os.RemoveAll(base)
-	layouts, err := c19Layouts(base, p.paths[0], files, R, "t")
+	var layouts []c19Layout
+	if len(kinds) > 0 {
+		layouts, err = c19LayoutsKinds(base, p.paths[0], files, kinds, "t")
+	} else {
+		layouts, err = c19Layouts(base, p.paths[0], files, R, "t")
+	}
 	if err != nil {
 		res.invalid = "layout: " + err.Error()
 		return res
 	}
-	runs := make([]c19Run, len(layouts), R+1)
-	if c19ParallelRuns { // replays and shrinking: the R processes of one task side by side
+	runs := make([]c19Run, len(layouts), len(layouts)+1)
+	runs[0] = c19Exec(layouts[0], gen)
+	// the adversarial environments are built from what the first run emitted
+	derived := map[string]map[string]bool{}
+	if strings.HasPrefix(gen, "go") && runs[0].err == "" {
+		derived = c19DerivePkgs(layouts[0].outAbs)
+	}
+	c19Adversarial(base, derived)
+	if c19ParallelRuns || (strings.HasPrefix(gen, "go") && !p.small) { // replays, shrinking, and the slow big-program go tasks: the R processes side by side
 		var wg sync.WaitGroup
 		for i := range layouts {
+			if i == 0 {
+				continue
+			}
 			wg.Add(1)
 			go func(i int) {
 				defer wg.Done()
@@ -1140,7 +1398,9 @@ func c19TaskFiles(p *c19Prog, files map[string]string, cfg int, R int, inproc bo
 		wg.Wait()
 	} else {
 		for i, l := range layouts {
-			runs[i] = c19Exec(l, gen)
+			if i > 0 {
+				runs[i] = c19Exec(l, gen)
+			}
 		}
 	}
 	if inproc {
@@ -1335,11 +1595,7 @@ func c19R() int {
 }
 
 func runC19(r *Rng, n int) {
-	// the compiler prints warnings to os.Stdout when called in-process: keep the
-	// line protocol clean (the protocol writer holds the original stdout)
-	if devnull, err := os.OpenFile(os.DevNull, os.O_WRONLY, 0); err == nil {
-		os.Stdout = devnull
-	}
+	c19Setup()
 	// n encodes the tier: quick passes a small n, thorough a larger one
 	R := 4
 	if n >= 10 {
@@ -1359,28 +1615,71 @@ func runC19(r *Rng, n int) {
 	}
 	// 2. census tie (census19.go)
 	c19CensusCases()
-	// 3. generated programs
+	// 3. generated programs: big (many entries per map-like collection) programs for the base
+	// configurations, small ones for the sweep over every option alone and every option pair
 	type task struct {
-		p   *c19Prog
-		cfg int
+		p     *c19Prog
+		gen   string
+		R     int
+		inpro bool
+		kinds []int // explicit layouts (sweep); nil = the first R
 	}
 	var tasks []task
-	for i := 0; i < n; i++ {
-		p := c19Generate(r.U64())
+	nSmall := n / 4
+	if nSmall < 1 {
+		nSmall = 1
+	}
+	nBig := n - nSmall
+	if nBig < 1 {
+		nBig = 1
+	}
+	sweep := c19SweepGens()
+	// quick: every sweep configuration from the neutral cwd, from inside the adversarial module and
+	// from two more places in rotation; thorough: all eight layouts
+	rot := [][]int{{2, 4}, {5, 3}, {4, 7}, {2, 5}, {6, 4}, {5, 2}}
+	for i := 0; i < nBig+nSmall; i++ {
+		small := i >= nBig
+		p := c19GenerateSized(r.U64(), small)
 		files, _ := p.render(c19AllKeep(p))
-		Stat("programs")
-		StatN("program-files", len(files))
-		StatN("program-items", len(p.items))
+		kind := "programs-big"
+		if small {
+			kind = "programs-small"
+		}
+		Stat(kind)
+		StatN(kind+"-files", len(files))
+		StatN(kind+"-items", len(p.items))
 		for _, it := range p.items {
 			Stat("item:" + it.kind)
 		}
-		if i == 0 {
-			Sample(map[string]interface{}{"program_seed": p.seed, "files": len(files), "items": len(p.items), "root": p.paths[0], "root_head": clipStr(files[p.paths[0]], 400)})
+		if i == 0 || i == nBig {
+			Sample(map[string]interface{}{"program": p.seedToken(), "files": len(files), "items": len(p.items), "root": p.paths[0], "root_head": clipStr(files[p.paths[0]], 400)})
 		}
-		for c := range c19Cfgs {
-			tasks = append(tasks, task{p, c})
+		if small {
+			for k, g := range sweep {
+				kinds := []int{0, 1, 2, 3, 4, 5, 6, 7}
+				if R <= 8 {
+					kinds = append([]int{0, 1}, rot[k%len(rot)]...)
+				}
+				tasks = append(tasks, task{p, g, len(kinds), R > 8, kinds})
+			}
+		} else {
+			for k, g := range c19BaseGens {
+				// quick: the first big program gets every base configuration, the others every second one
+				if R <= 8 && i > 0 && (k+i)%2 != 0 {
+					continue
+				}
+				tasks = append(tasks, task{p, g, R, i == 0 || R > 8, nil})
+			}
 		}
 	}
+	// the slow target first (shorter critical path)
+	sort.SliceStable(tasks, func(a, b int) bool {
+		ga, gb := strings.HasPrefix(tasks[a].gen, "go"), strings.HasPrefix(tasks[b].gen, "go")
+		if ga != gb {
+			return ga
+		}
+		return !tasks[a].p.small && tasks[b].p.small
+	})
 	var wg sync.WaitGroup
 	var failMu sync.Mutex
 	var failed []task
@@ -1391,17 +1690,22 @@ func runC19(r *Rng, n int) {
 			defer wg.Done()
 			for t := range ch {
 				keep := c19AllKeep(t.p)
-				res := c19Task(t.p, keep, t.cfg, R, true)
+				var res c19Result
+				if len(t.kinds) > 0 {
+					res = c19TaskKinds(t.p, keep, t.gen, t.kinds, t.inpro)
+				} else {
+					res = c19Task(t.p, keep, t.gen, t.R, t.inpro)
+				}
 				if !res.ok && res.invalid == "" {
 					failMu.Lock()
 					if rb, _ := res.detail["run_b"].(string); strings.HasPrefix(rb, "in-process") {
-						failed = append(failed, task{t.p, t.cfg}) // all separate processes agreed: shrink last
+						failed = append(failed, t) // all separate processes agreed: shrink last
 					} else {
-						failed = append([]task{{t.p, t.cfg}}, failed...)
+						failed = append([]task{t}, failed...)
 					}
 					failMu.Unlock()
 				}
-				c19Report(t.p, keep, t.cfg, res)
+				c19Report(t.p, keep, t.gen, res)
 			}
 		}()
 	}
@@ -1414,14 +1718,14 @@ func runC19(r *Rng, n int) {
 	seenLang := map[string]bool{}
 	attempts := 0
 	for _, t := range failed {
-		lang, _ := c19Lang(c19Cfgs[t.cfg].gen)
+		lang, _ := c19Lang(t.gen)
 		if seenLang[lang] || len(seenLang) >= 3 || attempts >= 6 {
 			continue
 		}
 		attempts++
 		keep := c19AllKeep(t.p)
 		c19ParallelRuns = true
-		first := c19Task(t.p, keep, t.cfg, 8, false)
+		first := c19Task(t.p, keep, t.gen, 8, false)
 		c19ParallelRuns = false
 		Stat("shrink-attempts")
 		if first.ok || first.invalid != "" {
@@ -1429,9 +1733,9 @@ func runC19(r *Rng, n int) {
 			continue
 		}
 		seenLang[lang] = true
-		small := c19Shrink(t.p, keep, t.cfg, first.what, 90*time.Second)
+		small := c19Shrink(t.p, keep, t.gen, first.what, 90*time.Second)
 		c19ParallelRuns = true
-		res := c19Task(t.p, small, t.cfg, 8, false)
+		res := c19Task(t.p, small, t.gen, 8, false)
 		c19ParallelRuns = false
 		if !res.ok && res.invalid == "" {
 			n := 0
@@ -1454,11 +1758,23 @@ func clipStr(s string, n int) string {
 	return s
 }
 
-func c19Report(p *c19Prog, keep []bool, cfg int, res c19Result) {
-	gen := c19Cfgs[cfg].gen
+func c19Report(p *c19Prog, keep []bool, gen string, res c19Result) {
 	lang, opts := c19Lang(gen)
 	Stat("evaluations")
-	Stat("target:" + gen)
+	if p.small {
+		Stat("sweep-target:" + lang)
+		if opts != "-" {
+			os := strings.Split(opts, ",")
+			for _, o := range os {
+				Stat("sweep-option:" + lang + "/" + o)
+			}
+			if len(os) == 2 {
+				Stat("sweep-pairs:" + lang)
+			}
+		}
+	} else {
+		Stat("target:" + gen)
+	}
 	StatN("compiler-runs", res.runs)
 	if res.invalid != "" {
 		Stat("invalid-program:" + lang)
@@ -1485,29 +1801,58 @@ func c19Report(p *c19Prog, keep []bool, cfg int, res c19Result) {
 	}
 }
 
-func init() {
-	suites["c19"] = runC19
-	// c19det <progseed> <cfg> <R> <keep>
-	lineOps["c19det"] = func(args []string) (string, bool) {
-		if len(args) != 4 {
-			return "bad-op", true
+// c19ValidGen: a -gen value of a known target that does not ask for the dated java annotation.
+func c19ValidGen(gen string) bool {
+	lang, opts := c19Lang(gen)
+	if _, ok := generator.Languages[lang]; !ok {
+		return false
+	}
+	if opts != "-" {
+		for _, o := range strings.Split(opts, ",") {
+			if strings.HasPrefix(o, "generated_annotations=") && o != "generated_annotations=undated" && o != "generated_annotations=suppress" {
+				return false
+			}
 		}
-		seed, e1 := strconv.ParseUint(strings.TrimPrefix(args[0], "s"), 10, 64)
-		cfg, e2 := strconv.Atoi(args[1])
-		R, e3 := strconv.Atoi(args[2])
-		if e1 != nil || e2 != nil || e3 != nil || cfg < 0 || cfg >= len(c19Cfgs) || R < 2 || R > 64 {
-			return "bad-op", true
-		}
+	}
+	return !strings.ContainsAny(gen, " \t")
+}
+
+var c19SetupOnce sync.Once
+
+// c19Setup: the compiler prints warnings to os.Stdout when called in-process: keep the line
+// protocol clean (the protocol writer holds the original stdout).  goimports may run the go
+// command (only when an import is left for it to find): it must never edit a go.sum, and
+// every run has the same environment.
+func c19Setup() {
+	c19SetupOnce.Do(func() {
 		if devnull, err := os.OpenFile(os.DevNull, os.O_WRONLY, 0); err == nil {
 			os.Stdout = devnull
 		}
-		p := c19Generate(seed)
+		os.Setenv("GOFLAGS", "-mod=readonly")
+	})
+}
+
+func init() {
+	suites["c19"] = runC19
+	// c19det <s|t><progseed> <gen> <R> <keep>   (s = many-entries program, t = small program)
+	lineOps["c19det"] = func(args []string) (string, bool) {
+		if len(args) != 4 || len(args[0]) < 2 || (args[0][0] != 's' && args[0][0] != 't') {
+			return "bad-op", true
+		}
+		seed, e1 := strconv.ParseUint(args[0][1:], 10, 64)
+		gen := args[1]
+		R, e3 := strconv.Atoi(args[2])
+		if e1 != nil || e3 != nil || !c19ValidGen(gen) || R < 2 || R > 64 {
+			return "bad-op", true
+		}
+		c19Setup()
+		p := c19GenerateSized(seed, args[0][0] == 't')
 		keep := c19ParseKeep(args[3], len(p.items))
 		if R < 8 { // a replay (corpus, shrinking) should not miss a difference that shows in some runs only
 			R = 8
 		}
 		c19ParallelRuns = true
-		res := c19Task(p, keep, cfg, R, false)
+		res := c19Task(p, keep, gen, R, false)
 		if res.invalid != "" { // the same failure in every run: no output anywhere, trivially the same
 			Stat("c19det-invalid-program")
 			return "ok same", true
@@ -1518,16 +1863,17 @@ func init() {
 		}
 		return "ok same", true
 	}
-	// c19dir <cfg> <R> <dir relative to /verif>: a program kept on disk (root = main.frugal)
+	// c19dir <gen> <R> <dir relative to /verif>: a program kept on disk (root = main.frugal)
 	lineOps["c19dir"] = func(args []string) (string, bool) {
 		if len(args) != 3 {
 			return "bad-op", true
 		}
-		cfg, e2 := strconv.Atoi(args[0])
+		gen := args[0]
 		R, e3 := strconv.Atoi(args[1])
-		if e2 != nil || e3 != nil || cfg < 0 || cfg >= len(c19Cfgs) || R < 2 || R > 64 || strings.Contains(args[2], "..") {
+		if e3 != nil || !c19ValidGen(gen) || R < 2 || R > 64 || strings.Contains(args[2], "..") {
 			return "bad-op", true
 		}
+		c19Setup()
 		files := c19ReadTree(filepath.Join(c19VerifDir(), filepath.FromSlash(args[2])))
 		if _, ok := files["main.frugal"]; !ok {
 			OracleFail("c19: corpus program not found: "+args[2], map[string]interface{}{"line": "c19dir " + strings.Join(args, " ")})
@@ -1535,7 +1881,7 @@ func init() {
 		}
 		p := &c19Prog{paths: []string{"main.frugal"}}
 		c19ParallelRuns = true
-		res := c19TaskFiles(p, files, cfg, R, false, "c19dir "+strings.Join(args, " "))
+		res := c19TaskFiles(p, files, gen, R, false, "c19dir "+strings.Join(args, " "))
 		if res.invalid != "" {
 			OracleFail("c19: corpus program does not compile: "+args[2]+": "+res.invalid, map[string]interface{}{"line": "c19dir " + strings.Join(args, " ")})
 			return "ok same", true
